@@ -19,7 +19,7 @@ from .core import Repo, Report, CLASSES, AnalysisError
 from .ordertype import OrderType
 from .absint import (Interp, Int, Const, NONE, NodeV, SelfV, TupleV, ListObj, DictObj, IterV, AbstractRaise, Unsupported, Opaque,
                      BoundMethod, run_all_choices)
-from .query_check import QueryWorld, SHAPES, to_py, SnapView
+from .query_check import QueryWorld, SHAPES, Shape, to_py, SnapView
 from .stats_interp import StatWorld, _Pres
 
 
@@ -193,12 +193,23 @@ def check_avg_number_of_nodes(repo: Repo, rep: Report, cls):
         raise AnalysisError("anchor vanished: %s.avg_number_of_nodes" % cls)
     fn = methods["avg_number_of_nodes"]
     construct = repo.construct(rel, cls + ".avg_number_of_nodes")
-    # directed: the shape with a reciprocal pair and an interaction that points back to an earlier node
-    shape = SHAPES[True][1] if cls == "DynDiGraph" else SHAPES[False][0]
+    # directed: the shape with a reciprocal pair and an interaction that points back to an earlier node; undirected: the path and a
+    # star (a node of degree three: one of its pairs may be present inside the run of another and a third may follow)
+    if cls == "DynDiGraph":
+        shapes = [SHAPES[True][1]]
+    else:
+        shapes = [SHAPES[False][0], Shape("star B-A, B-C, B-D", ["A", "B", "C", "D"], [("B", "A"), ("B", "C"), ("B", "D")], False)]
+    n = 0
+    for shape in shapes:
+        n += _avg_on_shape(rep, cls, shape, methods, fn, construct)
+    return n
+
+
+def _avg_on_shape(rep, cls, shape, methods, fn, construct):
     keys = sorted({shape.key(*e) for e in shape.edges}, key=str)
     # varied exhaustively: both directions of the reciprocal pair (each may be the only one alive at an instant) and the
     # interaction that points back to an earlier node
-    varied = keys if len(keys) <= 2 else [("A", "B"), ("B", "A"), ("C", "A")]
+    varied = keys if len(keys) <= 3 else [("A", "B"), ("B", "A"), ("C", "A")]
     ot = OrderType([["q"], ["t"]], [None], 12)
     offs = AvgWorld.OFFS
     all_ids = [offs[0] - 3] + list(offs) + [offs[-1] + 3]
